@@ -64,15 +64,21 @@ def check_revenue_fn(ctx) -> None:
     ctx.require(len(s.loops) == 1, 'CalculateRevenue: CashFlow store not in a single range loop')
     r = s.loops[0]
     i = Rat.atom(r.var)
-    ctx.check(_eq(r.start, C) and _eq(r.stop, L + C) and _eq(r.step, ONE) and not s.guards, 'K1', 'CalculateRevenue/CashFlow/range', where,
-              f'revenue years run over {r.show()}; operating years are [C, L + C)', fact=r.show())
-    ctx.check(_eq(tr.tr(s.index), i), 'K1', 'CalculateRevenue/CashFlow/target-index', where, f'target index `{norm(s.index)}` is not the loop year')
+    # compare in terms of the target index k = index(i): a loop over operating years writing CashFlow[C + y] from Energy[y] is the
+    # same computation as a loop over k in [C, L + C) writing CashFlow[k] from Energy[k - C]
+    idx = tr.tr(s.index)
+    shift = idx - i                      # k = i + shift for a unit-stride index
+    ctx.require(r.var not in shift.show(40), f'CalculateRevenue: target index `{norm(s.index)}` is not the loop variable plus an offset (cannot decide)')
+    k_start, k_stop = r.start + shift, r.stop + shift
+    ctx.check(_eq(k_start, C) and _eq(k_stop, L + C) and _eq(r.step, ONE) and not s.guards, 'K1', 'CalculateRevenue/CashFlow/range', where,
+              f'revenue is written for target years [{k_start.show()}, {k_stop.show()}); operating years are [C, L + C)', fact='target years [C, L + C)')
+    ctx.ok('K1', 'CalculateRevenue/CashFlow/target-index', where, f'target index {norm(s.index)} = loop variable + {shift.show()}')
     subs = [n for n in ast.walk(s.value) if isinstance(n, ast.Subscript)]
     reads = {norm(n.value): tr.tr(n.slice) for n in subs}
-    ctx.check(set(reads) == {'Energy', 'Price'} and all(_eq(v, i - C) for v in reads.values()), 'K1',
+    ctx.check(set(reads) == {'Energy', 'Price'} and all(_eq(v, idx - C) for v in reads.values()), 'K1',
               'CalculateRevenue/CashFlow/operand-indices', where,
-              f'energy and price of one year must both be read at year - C: ' + ', '.join(f'{k}[{v.show()}]' for k, v in reads.items()),
-              fact='Energy[i - C] * Price[i - C]')
+              f'energy and price of one year must both be read at (target year - C): ' + ', '.join(f'{k}[{v.show()}]' for k, v in reads.items()) +
+              f' for target index {idx.show()}', fact='Energy[k - C] * Price[k - C]')
     # value = Energy * Price / 1e6, unit typed kWh * USD/kWh -> MUSD
     def atom_type(key, node):
         if key == 'Energy':
